@@ -210,6 +210,17 @@ int main(void)
 #endif
             printf("R "); put_fp(&d); printf(" %x\n", r);
         }
+        else if (OP("fp_decode_reduce")) {
+            /* fp_decode_reduce(d, src, len): the buffer handed over is zero-padded to at least FP_ENCODED_BYTES so that
+               the ref routine (which ignores len and always reads FP_ENCODED_BYTES) does not over-read in the harness */
+            NEED(2);
+            if (get_u64(arg[0], &u) || u > 4096) goto bad;
+            static uint8_t big2[4096 + 2 * FP_ENCODED_BYTES];
+            memset(big2, 0, sizeof big2);
+            if (parse_bytes(arg[1], big2, (size_t)u ? (size_t)u : 1)) goto bad;
+            fp_decode_reduce(&d, big2, (size_t)u);
+            printf("R "); put_fp(&d); printf("\n");
+        }
         /* ---- GF(p^2) */
         else if (OP("fp2_add") || OP("fp2_sub") || OP("fp2_mul")) {
             NEED(4);
